@@ -1,13 +1,14 @@
 package main
 
 import (
-	"time"
 	"bytes"
+	"errors"
 	"fmt"
 	"io"
 	"os"
 	"strings"
 	"syscall"
+	"time"
 
 	"github.com/hedzr/is"
 	"github.com/hedzr/logg/slog"
@@ -712,6 +713,166 @@ func c13devwriter(c *Ctx) {
 		c.R.NonTrivial("devwriter", idx)
 		if c.R.WantSample() {
 			c.R.Sample(idx, desc, "every call returned; the other normal writer got each admitted record once; at most one diagnostic at the logger's own warning destination; nothing on stderr")
+		}
+	})
+}
+
+func init() { reg("C13", "closedfile", c13closedfile) }
+
+// c13brokenW fails every write; c13alertW unregisters it when it is handed the library's report about a failed write.
+type c13brokenW struct{}
+
+func (c13brokenW) Write(p []byte) (int, error) { return 0, errors.New("write: broken pipe (injected)") }
+
+type c13alertW struct {
+	lg   *slog.Entry
+	bad  io.Writer
+	done bool
+}
+
+func (w *c13alertW) Write(p []byte) (int, error) {
+	if !w.done && bytes.Contains(p, []byte(diagText)) {
+		w.done = true
+		w.lg.RemoveErrorWriter(w.bad)
+	}
+	return len(p), nil
+}
+
+// c13closedfile: a destination that is a FILE the application has closed (a log file made by NewFileWriter and closed
+// at rotation; the standard-device wrappers of a logger after Close() on what GetWriter hands out; a plain *os.File
+// that was closed) stands in front of a recording destination in both classes. Every write to it fails - the failing
+// destination of the statement, of a kind the enumeration cannot build from function values.
+// Oracle: the call returns normally, the recording destination gets the admitted record exactly once, at most one
+// diagnostic per failing record (none for a Warn record), and only at a warning destination.
+func c13closedfile(c *Ctx) {
+	slog.AddFlags(slog.LnoInterrupt)
+	slog.RemoveFlags(slog.Lcaller)
+	log := mon.NewLog()
+	c.Each(func(idx int, r *gen.R) {
+		kind := []string{"NewFileWriter-closed", "standard-device-wrappers-closed", "os.File-closed", "a-destination-removes-the-failing-one-when-it-sees-the-diagnostic", "os.File-closed, and a per-level writer for Panic"}[idx%5]
+		L := []slog.Level{slog.AlwaysLevel, slog.InfoLevel, slog.ErrorLevel, slog.TraceLevel}[(idx/5)%4]
+		c.R.Distinct("closed_file_kinds", kind)
+		lg := slog.New(fmt.Sprintf("cf%d", idx)).Root()
+		w0 := mon.New(log, "W0", mon.ShapePlain)
+		we := mon.New(log, "WE", mon.ShapePlain)
+		dir, err := os.MkdirTemp("", "c13-cf-*")
+		if err != nil {
+			return
+		}
+		defer os.RemoveAll(dir)
+		desc := map[string]any{"closed_destination": kind, "logger_level": L.String()}
+		func() {
+			defer func() {
+				if e := recover(); e != nil {
+					desc["setup_panicked"] = fmt.Sprint(e)
+				}
+			}()
+			switch kind {
+			case "NewFileWriter-closed":
+				fw := slog.NewFileWriter(dir + "/app.log")
+				lg.SetWriter(fw).AddWriter(w0)
+				lg.SetErrorWriter(fw).AddErrorWriter(we)
+				_ = fw.Close()
+			case "standard-device-wrappers-closed":
+				lg.ResetWriters()
+				lg.AddWriter(w0).AddErrorWriter(we)
+				// the application closes what the logger hands out for the normal and the error class; the recording
+				// destinations have no Close method and stay as they are
+				for _, lv := range []slog.Level{slog.InfoLevel, slog.ErrorLevel} {
+					if cl, ok := lg.GetWriterBy(lv).(io.Closer); ok {
+						_ = cl.Close()
+					}
+				}
+			case "a-destination-removes-the-failing-one-when-it-sees-the-diagnostic":
+				// error set [broken, alert, recording]: the alert destination reacts to the library's report about the broken
+				// one by taking it out of the logger (from inside its own Write)
+				bad := c13brokenW{}
+				alert := &c13alertW{lg: lg, bad: bad}
+				lg.SetWriter(w0)
+				lg.SetErrorWriter(bad).AddErrorWriter(alert).AddErrorWriter(we)
+			default:
+				f, _ := os.Create(dir + "/plain.log")
+				_ = f.Close()
+				lg.SetWriter(f).AddWriter(w0)
+				lg.SetErrorWriter(f).AddErrorWriter(we)
+				if strings.Contains(kind, "per-level writer for Panic") {
+					// a writer of its own for the Panic severity (no record of that severity is issued here): every other
+					// severity, the diagnostic included, goes where its class says
+					lg.AddLevelWriter(slog.PanicLevel, mon.New(log, "WP", mon.ShapePlain))
+				}
+			}
+		}()
+		lg.SetColorMode(false)
+		lg.SetLevel(L)
+		is.SetDebugMode(false)
+		for ci, sev := range []slog.Level{slog.InfoLevel, slog.ErrorLevel, slog.WarnLevel, slog.AlwaysLevel, slog.DebugLevel, slog.InfoLevel, slog.FailLevel} {
+			id := fmt.Sprintf("<cf%d-%d>", idx, ci)
+			log.Reset()
+			panicked := ""
+			func() {
+				defer func() {
+					if e := recover(); e != nil {
+						panicked = fmt.Sprint(e)
+					}
+				}()
+				c.R.JournalNote(fmt.Sprintf("closedfile %v sev=%v %s", desc, sev, id))
+				lg.LogAttrs(bg, sev, "rec "+id, "k", ci)
+			}()
+			c.R.Add("calls_with_a_closed_file_among_the_writers", 1)
+			sig := func(clause string) string { return "C13/" + clause + "/closed-file/" + className(sev) }
+			if panicked != "" {
+				c.R.Violation(idx, "returns-normally", sig("returns-normally"), "the logging call panicked: "+panicked, desc)
+				return
+			}
+			adm := admit(L, sev, false, builtinTreatAs)
+			own := map[string]int{}
+			diags := 0
+			for _, e := range log.Events() {
+				if e.Kind != mon.EvWrite {
+					continue
+				}
+				if bytes.Contains(e.Data, []byte(diagText)) {
+					diags++
+					if e.W != "WE" {
+						c.R.Violation(idx, "diagnostic", sig("diagnostic-destination"), fmt.Sprintf("a diagnostic went to %s, which is no warning destination; events: %s", e.W, clip(fmtEvents(log.Events()), 600)), desc)
+						return
+					}
+				} else if bytes.Contains(e.Data, []byte(id)) {
+					own[e.W]++
+				}
+			}
+			if own["WP"] > 0 {
+				c.R.Violation(idx, "other-destinations", sig("other-destinations"), fmt.Sprintf("the writer registered for the Panic severity alone was handed a %v record; events: %s", sev, clip(fmtEvents(log.Events()), 600)), desc)
+				return
+			}
+			wantW := "W0"
+			if builtinErrorClass(sev) {
+				wantW = "WE"
+			}
+			want := 0
+			if adm {
+				want = 1
+			}
+			other := map[string]string{"W0": "WE", "WE": "W0"}[wantW]
+			if own[wantW] != want || own[other] != 0 {
+				c.R.Violation(idx, "other-destinations", sig("other-destinations"), fmt.Sprintf("the recording destination behind the closed file got the record %d time(s) (the other class's: %d), expected %d; events: %s", own[wantW], own[other], want, clip(fmtEvents(log.Events()), 600)), desc)
+				return
+			}
+			maxDiag := 0
+			if adm && sev != slog.WarnLevel && admit(L, slog.WarnLevel, false, builtinTreatAs) {
+				maxDiag = 1
+			}
+			if diags > maxDiag {
+				c.R.Violation(idx, "diagnostic", sig("diagnostic"), fmt.Sprintf("%d diagnostic record(s) for one call, at most %d allowed; events: %s", diags, maxDiag, clip(fmtEvents(log.Events()), 600)), desc)
+				return
+			}
+			if diags > 0 {
+				c.R.Add("diagnostic_records_seen", 1)
+			}
+		}
+		c.R.NonTrivial("closedfile", kind, L.String(), idx)
+		if c.R.WantSample() {
+			c.R.Sample(idx, desc, nil)
 		}
 	})
 }
